@@ -345,6 +345,7 @@ def run(job_id, st, rlimit):
     SPECS = SPECS or spec_table()
     LOOPS = LOOPS or LOOPS_table()
     cls, prop = job_id.split(":", 1)[1].split(".")
+    _cnt[0] = 0          # fresh names must not depend on which jobs the worker process ran before (quantified goals are name sensitive)
     q = CLS_OF_FILE[cls]
     qual = f"{q}.{prop}"
     ex = extract(qual)
